@@ -212,8 +212,11 @@ def _updateNameRecords(varfont, axisValues):
     getName = nametable.getName
     platforms = set((r.platformID, r.platEncID, r.langID) for r in nametable.names)
     for platform in platforms:
-        if not all(getName(i, *platform) for i in (1, 2, elidedNameID)):
-            # Since no family name and subfamily name records were found,
+        if not all(
+            getName(i, *platform) for i in (1, 2, elidedNameID, *axisValueNameIDs)
+        ):
+            # Since no family name and subfamily name records were found
+            # (or the axis value names aren't localised for this platform),
             # we cannot update this set of name Records.
             continue
 
